@@ -165,14 +165,15 @@ Qed.
 (** ** Storage lifecycle of the user-defined backend *)
 
 (** [MemBuilder::build] is called once, with the element type's layout *)
-Theorem build_reloc_event c v0 u :
-  mem_build c BReloc (v0, u)
-  = Ok tt ({| vlen := 0; vcap := 0; vmem := []; vgen := 0; vbk := BReloc |}, emit (EBuild (c_sz c) (c_al c)) u).
+Theorem build_reloc_event c c0 v0 u :
+  mem_build c (BReloc c0) (v0, u)
+  = Ok tt ({| vlen := 0; vcap := c0; vmem := uninit (N.to_nat (c_sz c * c0)); vgen := 0; vbk := BReloc c0 |},
+           emit (EBuild (c_sz c) (c_al c)) u).
 Proof. reflexivity. Qed.
 
 (** [shrink_to] / [shrink_to_fit] never ask for less than the live length *)
-Theorem shrink_request_ge_len c v u m :
-  vbk v = BReloc ->
+Theorem shrink_request_ge_len c c0 v u m :
+  vbk v = BReloc c0 ->
   forall r, shrink_to c m (v, u) = r ->
   (r = Ok tt (v, u) /\ vcap v <= N.max (vlen v) m) \/
   (exists n, vlen v <= n /\ n < vcap v /\
@@ -184,8 +185,8 @@ Proof.
     unfold mem_resize. mstep. rewrite Hbk. reflexivity.
   - left. split; [reflexivity|exact Hge].
 Qed.
-Theorem shrink_to_fit_request c v u :
-  vbk v = BReloc ->
+Theorem shrink_to_fit_request c c0 v u :
+  vbk v = BReloc c0 ->
   shrink_to_fit c (v, u) = reloc_resize c (vlen v) (v, emit (EResize (vlen v)) u).
 Proof.
   intros Hbk. unfold shrink_to_fit, mem_resize. mstep. rewrite Hbk. reflexivity.
@@ -193,8 +194,8 @@ Qed.
 
 (** dropping a vector: the remaining elements are destroyed first (in order), then the storage
     is released, once *)
-Theorem drop_vec_reloc c v u xs :
-  Rep c v xs -> ufuse u = None -> vbk v = BReloc ->
+Theorem drop_vec_reloc c c0 v u xs :
+  Rep c v xs -> ufuse u = None -> vbk v = BReloc c0 ->
   exists v' u',
     drop_vec c (v, u) = Ok tt (v', u') /\ vlen v' = 0 /\
     ulog u' = EMemDrop :: (if c_dg c then rev (map EDrop xs) else []) ++ ulog u.
